@@ -293,11 +293,11 @@ theorem eager_agrees (Infer : InferFn) (hI : InferOK Infer) (nm : Ref → String
     (Infer (handModel nm c) = none → construct Infer c = .error .inference) ∧
     (∀ res, Infer (handModel nm c) = some res →
       construct Infer c = .ok (c.outPairs.map (fun p =>
-        (p.1, (lookupTy (nm (Ref.out p.2)) res).map stripUnk)))) := by
+        (p.1, (lookupTy (nm (Ref.out p.2)) res).map (stripUnk c.givenNames))))) := by
   have hS := infer_singleton Infer hI nm c hwf hg
   have hsome : ∀ res, Infer (handModel nm c) = some res →
       construct Infer c = .ok (c.outPairs.map (fun p =>
-        (p.1, (lookupTy (nm (Ref.out p.2)) res).map stripUnk))) := by
+        (p.1, (lookupTy (nm (Ref.out p.2)) res).map (stripUnk c.givenNames)))) := by
     intro res hres
     rw [hres] at hS
     simp only [construct, hk, ht, hS, Option.map_some]
@@ -363,16 +363,16 @@ theorem result_mapping_bijective (c : Call) (hwf : WF c) (res : List (String × 
 
 /-- **stripUnk_weakens**: stripping the invented `unk__*` dimension names only forgets dimensions:
     constructor, element type and rank are kept, every kept dimension is unchanged. -/
-theorem stripUnk_weakens (t : Ty) : Weaker (stripUnk t) t := by
+theorem stripUnk_weakens (g : List String) (t : Ty) : Weaker (stripUnk g t) t := by
   induction t with
   | tensor e sh =>
     cases sh with
     | none => exact .tensorNone e
-    | some s => exact .tensorSome e _ _ (stripShape_weaker s)
+    | some s => exact .tensorSome e _ _ (stripShape_weaker g s)
   | seq t ih => exact .seq ih
   | opt t ih => exact .opt ih
 
-theorem stripUnk_idem (t : Ty) : stripUnk (stripUnk t) = stripUnk t := by
+theorem stripUnk_idem (g : List String) (t : Ty) : stripUnk g (stripUnk g t) = stripUnk g t := by
   induction t with
   | tensor e sh =>
     cases sh with
@@ -382,13 +382,13 @@ theorem stripUnk_idem (t : Ty) : stripUnk (stripUnk t) = stripUnk t := by
       congr 2
       apply List.map_congr_left
       intro d _
-      exact stripDim_idem d
+      exact stripDim_idem g d
   | seq t ih => simp [stripUnk, ih]
   | opt t ih => simp [stripUnk, ih]
 
 /-- a type without invented dimension names (in particular: with the user's own symbolic
     dimensions) comes through unchanged -/
-theorem stripUnk_keeps (t : Ty) (h : tyInvented t = false) : stripUnk t = t := by
+theorem stripUnk_keeps (g : List String) (t : Ty) (h : tyInvented g t = false) : stripUnk g t = t := by
   induction t with
   | tensor e sh =>
     cases sh with
@@ -400,7 +400,7 @@ theorem stripUnk_keeps (t : Ty) (h : tyInvented t = false) : stripUnk t = t := b
       conv => rhs; rw [← List.map_id s]
       apply List.map_congr_left
       intro d hd
-      exact stripDim_id d (by simpa using h d hd)
+      exact stripDim_id g d (by simpa using h d hd)
   | seq t ih => simp only [tyInvented] at h; simp [stripUnk, ih h]
   | opt t ih => simp only [tyInvented] at h; simp [stripUnk, ih h]
 
@@ -660,7 +660,7 @@ example : prune (singleton addCall) =
       (handModel (fun r => match r with | .inp _ => "x" | .out _ => "y") addCall) := by decide
 example : (singleton addCall).opset = ("", 14) := by decide
 
-example : stripUnk (.seq (f32 [.sym "N", .sym "unk__12", .const 3])) = .seq (f32 [.sym "N", .unk, .const 3]) := by
+example : stripUnk [] (.seq (f32 [.sym "N", .sym "unk__12", .const 3])) = .seq (f32 [.sym "N", .unk, .const 3]) := by
   decide
 
 def splitSig : Sig :=
@@ -909,12 +909,35 @@ theorem supplement_replacing_counterexample :
         [("Values", some (f32 [.const 2, .unk])), ("Indices", some (.tensor 7 (some [.const 2, .unk])))] = false := by
   decide
 
-/-- `stripUnk_keeps` needs its hypothesis: a dimension the CALLER named `unk__0` is stripped with the
-    invented ones (known finding `types-differ:user-dim-named-unk__`) -/
+/-- before fix `f580c1e` every `unk__*` name was stripped (`given = []`): a dimension the CALLER
+    named `unk__0` went with the invented ones -/
 theorem stripUnk_user_named_unk_counterexample :
-    stripUnk (.tensor 1 (some [.sym "unk__0", .const 2])) = .tensor 1 (some [.unk, .const 2])
-    ∧ stripUnk (.tensor 1 (some [.sym "unk__0", .const 2])) ≠ .tensor 1 (some [.sym "unk__0", .const 2]) := by
+    stripUnk [] (.tensor 1 (some [.sym "unk__0", .const 2])) = .tensor 1 (some [.unk, .const 2])
+    ∧ stripUnk [] (.tensor 1 (some [.sym "unk__0", .const 2])) ≠ .tensor 1 (some [.sym "unk__0", .const 2]) := by
   decide
+
+/-- ... and since the fix the caller's own names survive whatever they look like, while a name ONNX
+    invented next to them (`unk__1`) is still reported as unknown -/
+theorem stripUnk_keeps_given (g : List String) (t : Ty) (h : ∀ s ∈ dimNames t, s ∈ g) : stripUnk g t = t := by
+  apply stripUnk_keeps
+  induction t with
+  | tensor e sh =>
+    cases sh with
+    | none => rfl
+    | some ds =>
+      simp only [tyInvented, List.any_eq_false]
+      intro d hd
+      cases d with
+      | const n => simp [dimInvented]
+      | unk => simp [dimInvented]
+      | sym s =>
+        have : s ∈ g := h s (by simp only [dimNames, List.mem_filterMap]; exact ⟨.sym s, hd, rfl⟩)
+        simp [dimInvented, this]
+  | seq t ih => exact ih h
+  | opt t ih => exact ih h
+
+example : stripUnk ["unk__0"] (.tensor 1 (some [.sym "unk__0", .sym "unk__1", .const 2]))
+    = .tensor 1 (some [.sym "unk__0", .unk, .const 2]) := by decide
 
 example : refinesAll [("o", some (.tensor 1 (some [.const 2, .unk])))] [("o", some (.tensor 1 none))] = true := by decide
 example : refinesAll [("o", some (.tensor 1 none))] [("o", some (.tensor 1 (some [.unk])))] = false := by decide
